@@ -3,10 +3,12 @@ package wl
 import (
 	"fmt"
 	"math/rand"
+	"strings"
 	"sync"
 	"sync/atomic"
 	"time"
 
+	"github.com/xelaj/mtproto/telegram"
 	"github.com/xelaj/mtproto/zverif/ref/mtp"
 	"github.com/xelaj/mtproto/zverif/refserver"
 	"github.com/xelaj/mtproto/zverif/wk"
@@ -169,15 +171,124 @@ func c16catalogue() []c16item {
 			cn.SendRaw(b)
 		}})
 	}
+	// frames that look encrypted (non-zero key id) but are not sealed under the session's key
+	for _, k := range c16foreignFrames {
+		k := k
+		items = append(items, c16item{Name: "frame-" + k, raw: func(cn *refserver.Conn) { cn.SendRaw(c16foreignFrame(k, rand.New(rand.NewSource(int64(len(k)))))) }})
+	}
 	items = append(items, c16item{Name: "transport-code--404", raw: func(cn *refserver.Conn) { cn.SendRaw(le32(0xfffffe6c)) }})
 	items = append(items, c16item{Name: "transport-code--429", raw: func(cn *refserver.Conn) { cn.SendRaw(le32(0xfffffe53)) }})
 	items = append(items, c16item{Name: "close", raw: func(cn *refserver.Conn) { cn.Close() }})
 	return items
 }
 
+var c16foreignFrames = []string{"key-id-of-the-empty-key", "random-key-id-aligned", "random-key-id-unaligned", "random-key-id-24-bytes", "key-id-of-the-empty-key-24-bytes"}
+
+// c16foreignFrame: a transport payload whose first 8 bytes are a non-zero key id the client does not hold.
+func c16foreignFrame(kind string, r *rand.Rand) []byte {
+	id := rbytes(r, 8)
+	id[0] |= 1
+	if strings.HasPrefix(kind, "key-id-of-the-empty-key") {
+		id = mtp.AuthKeyID(nil) // what a client that has no key yet computes as "its" key id
+	}
+	switch {
+	case strings.HasSuffix(kind, "24-bytes"):
+		return append(id, rbytes(r, 16)...)
+	case strings.HasSuffix(kind, "unaligned"):
+		return append(id, rbytes(r, 16+16*(1+r.Intn(4))+4*(1+r.Intn(3)))...)
+	}
+	return append(id, rbytes(r, 16+16*(1+r.Intn(6)))...)
+}
+
+// c16prekey: the key exchange itself is traffic too. Before the reply of one of its three stages the server writes
+// a frame that looks encrypted; the client has no key (or not yet the new one), must refuse the frame, and the
+// exchange, being otherwise conformant, completes; a request issued afterwards is answered.
+func c16prekey(c *wk.Ctx, idx int, r *rand.Rand, stage, kind string) {
+	w := newWorld(c, idx)
+	defer w.close()
+	var srv *refserver.Server
+	srv = w.server(refserver.HandlerFunc(func(cn *refserver.Conn, in *mtp.Inner) {
+		if uid, _, res, ok := answerFor(in.Body); ok {
+			key, _ := cn.KeySession()
+			salt, _ := srv.Salt(key)
+			cn.SendEncrypted(refserver.Out{MsgID: srv.NextMsgID(1), SeqNo: cn.NextSeq(true), Body: refserver.RPCResult(in.MsgID, res)}, salt, "rpc_result", map[string]interface{}{"uid": fmt.Sprint(uid)})
+		}
+	}))
+	var injected int32
+	srv.Tamper = func(f *refserver.HSFields) {
+		if f.Stage == stage {
+			f.RawBefore = [][]byte{c16foreignFrame(kind, r)}
+			atomic.AddInt32(&injected, 1)
+		}
+	}
+	m, err := w.client(srv.Addr, w.sessionPath("s"), srv)
+	if err != nil {
+		c.Viol("C16", idx, "prekey/new-client", err.Error(), nil)
+		return
+	}
+	tag := stage + "/" + kind
+	var cerr error
+	var pan bool
+	var pm, st string
+	if !withTimeout(60*time.Second, func() { pan, pm, st = wk.Guard(func() { cerr = m.CreateConnection() }) }) {
+		if stalled, dump := isStalled(); stalled {
+			c.Viol("C16", idx, "prekey/stall/"+tag, "a frame under a foreign key id before the "+stage+" reply: the key exchange never finished and nothing can move", dump)
+		} else {
+			c.Log.Emit(coreInconclusive("c16 prekey: CreateConnection did not return within the watchdog"))
+		}
+		return
+	}
+	defer safeDisconnect(m)
+	if pan {
+		c.Viol("C16", idx, "prekey/panic/"+tag+"/"+st, pm, nil)
+		return
+	}
+	if cerr != nil {
+		c.Viol("C16", idx, "prekey/exchange-failed/"+tag, "a refused frame before the "+stage+" reply made the otherwise conformant key exchange fail: "+wk.Short(cerr.Error(), 300), nil)
+		return
+	}
+	if atomic.LoadInt32(&injected) == 0 {
+		c.Log.Emit(coreInconclusive("c16 prekey: stage " + stage + " never reached"))
+		return
+	}
+	uid := uint64(r.Uint32()) | uint64(r.Uint32())<<32
+	var res interface{}
+	var rerr error
+	done := withTimeout(30*time.Second, func() {
+		pan, pm, st = wk.Guard(func() {
+			res, rerr = m.MakeRequest(&telegram.MessagesGetDhConfigParams{Version: int32(uint32(uid)), RandomLength: int32(uint32(uid >> 32))})
+		})
+	})
+	nm, _ := res.(*telegram.MessagesDhConfigNotModified)
+	switch {
+	case !done:
+		if stalled, dump := isStalled(); stalled {
+			c.Viol("C16", idx, "prekey/probe-stall/"+tag, "the request after the key exchange never completed", dump)
+		} else {
+			c.Log.Emit(coreInconclusive("c16 prekey: probe did not return within the watchdog"))
+		}
+	case pan:
+		c.Viol("C16", idx, "prekey/probe-panic/"+tag+"/"+st, pm, nil)
+	case rerr != nil || nm == nil || len(nm.Random) != 8 || leU64(nm.Random) != stamp(uid):
+		c.Viol("C16", idx, "prekey/probe-wrong/"+tag, fmt.Sprintf("err=%v result=%T", rerr, res), nil)
+	}
+	c.Count("prekey.exchanges", 1)
+	c.Distinct("prekey", stage, kind)
+}
+
 func c16(c *wk.Ctx) {
 	cat := c16catalogue()
 	idx := 0
+	// frames under foreign key ids while the key exchange is in progress
+	for _, stage := range []string{"resPQ", "dh_params", "dh_gen"} {
+		for _, kind := range c16foreignFrames {
+			if c.Mine(idx) {
+				c.Begin(idx, "prekey "+stage+" "+kind)
+				c16prekey(c, idx, c.Rand(idx), stage, kind)
+			}
+			idx++
+		}
+	}
 	// every catalogue item singly (with and without a warning channel / custom handler)
 	for i := range cat {
 		for v := 0; v < c.Pick(1, 4); v++ {
